@@ -379,7 +379,7 @@ pub fn run(ctx: &Ctx) -> Collector {
     col.space(json!({"name": "colour formatting", "cases": colours.len(), "what": "all 4x256 single-channel values and the 8^4 grid of edge values through [u8;4], [u8;3], &[u8], Vec<u8>; single-channel sweep also through the rendered document", "exhaustive": true}));
 
     // ---- image strings
-    let al = ['a', '&', '<', '>', '"', '\'', ' ', ';', '#'];
+    let al = ['a', '&', '<', '>', '"', '\'', ' ', ';', '#', '\u{e9}', '\u{1F600}'];
     let mut strings: Vec<String> = vec![String::new()];
     for a in al {
         strings.push(a.to_string());
@@ -430,7 +430,7 @@ pub fn run(ctx: &Ctx) -> Collector {
             col.violation((30, i as u64), format!("C12/{}", k), format!("image string {:?}: {}", s, w), json!({"kind": "svg-image", "image": s}));
         }
     });
-    col.space(json!({"name": "image strings", "cases": strings.len(), "what": format!("all 820 strings of length <= 3 over {{a & < > \" ' space ; #}}, alone and inside 7 contexts (data:, data:image/svg+xml;utf8, URL + extension, ./, #, extension only, a 300-character run in front) = {} strings, + {} realistic URLs, data URIs, paths and injection attempts", n_short, strings.len() - n_short), "exhaustive": true}));
+    col.space(json!({"name": "image strings", "cases": strings.len(), "what": format!("all 1463 strings of length <= 3 over {{a & < > \" ' space ; # e-acute U+1F600}}, alone and inside 7 contexts (data:, data:image/svg+xml;utf8, URL + extension, ./, #, extension only, a 300-character run in front) = {} strings, + {} realistic URLs, data URIs, paths and injection attempts", n_short, strings.len() - n_short), "exhaustive": true}));
     col.sample(json!({"kind": "svg-image", "image": "a&<"}));
     col
 }
